@@ -16,7 +16,23 @@ theorem qAt_ddCall (d : String) (sp0 : Span) (e : Node) (args : List Node) (m : 
     qAt d sp0 (ddCall e args m sp) = (decide (m = d) && decide (sp = sp0)) := by
   simp [qAt, hookSiteOf, ddCall, ddCallee]
 
-/-- the `+` / template occurrence (if any) this node is, as a 0/1 count for the site `(d, sp0)`
+/-- receiver kinds for which the theorem claims `recv.m(..)` (the specification's `receiverCovered`, with
+    the property of a member receiver a plain name or a computed key) -/
+def recvOK (cfg : Config) (m : String) : Node → Bool
+  | .ident .. => true
+  | .call .. => true
+  | .paren .. => true
+  | .array .. => true
+  | .member _ (.pname p _) _ => p != Generated.prototypeName
+  | .member _ (.other ..) _ => true
+  | .lit .. => cfg.allowsLiteralCallers m
+  | _ => false
+
+def isOtherNode : Node → Bool
+  | .other .. => true
+  | _ => false
+
+/-- the `+` / `+=` / template occurrence (if any) this node is, as a 0/1 count for the site `(d, sp0)`
     (`reqOwn_of_ownOcc` relates it to the specification's `ownOcc`) -/
 def reqOwn (cfg : Config) (d : String) (sp0 : Span) (n : Node) : Nat :=
   match n with
@@ -24,6 +40,12 @@ def reqOwn (cfg : Config) (d : String) (sp0 : Span) (n : Node) : Nat :=
     if op == "+" && cfg.plusEnabled && !(isLiteralSum l && isLiteralSum r) && decide (cfg.plusName = d) && decide (sp = sp0) then 1 else 0
   | .tpl exprs _ sp =>
     if cfg.tplEnabled && !exprs.isEmpty && exprs.all (fun e => !e.isLit) && decide (cfg.tplName = d) && decide (sp = sp0) then 1 else 0
+  | .assign op left _ sp =>
+    if op == "+=" && cfg.plusEnabled && !isOtherNode left && decide (cfg.plusName = d) && decide (sp = sp0) then 1 else 0
+  | .call (.member recv (.pname m _) _) _ sp =>
+    match cfg.get m with
+    | some csi => if !isCallOrApply m && recvOK cfg m recv && decide (csi.dst = d) && decide (sp = sp0) then 1 else 0
+    | none => 0
   | _ => 0
 
 /-- the children the operation visitor visits (the specification's exclusions: operands of `delete`,
@@ -172,6 +194,31 @@ theorem reqOwn_spec_bin (cfg : Config) (op : String) (l r : Node) (sp : Span) (o
   · exfalso
     unfold ownOcc at h
     split at h <;> first | (rename_i heq; cases heq; exact hop rfl) | (rename_i heq; cases heq) | cases h
+
+/-- the specification's `+=` occurrence is counted -/
+theorem reqOwn_spec_assign (cfg : Config) (op : String) (l r : Node) (sp : Span) (o : Occ)
+    (h : ownOcc cfg (.assign op l r sp) = some o) : reqOwn cfg o.dst o.sp (.assign op l r sp) = 1 := by
+  by_cases hop : op = "+="
+  · subst hop
+    cases l <;> simp [ownOcc] at h <;>
+      (obtain ⟨hpe, rfl⟩ := h; simp [reqOwn, isOtherNode, hpe])
+  · exfalso
+    unfold ownOcc at h
+    split at h <;> first | (rename_i heq; cases heq; exact hop rfl) | (rename_i heq; cases heq) | cases h
+
+/-- the specification's plain method-call occurrence is counted (receiver of a claimed kind, method not
+    named `call` / `apply`) -/
+theorem reqOwn_spec_call (cfg : Config) (recv : Node) (m : String) (msp cmsp : Span) (cargs : List Node) (sp : Span) (csi : CsiMethod)
+    (hg : cfg.get m = some csi) (hca : isCallOrApply m = false) (hr : recvOK cfg m recv = true) :
+    ownOcc cfg (.call (.member recv (.pname m msp) cmsp) cargs sp) = some ⟨csi.dst, sp, "call"⟩ ∧
+    reqOwn cfg csi.dst sp (.call (.member recv (.pname m msp) cmsp) cargs sp) = 1 := by
+  have hrc : receiverCovered cfg m recv = true := by
+    cases recv with
+    | member o p s0 => cases p <;> simp_all [recvOK, receiverCovered]
+    | _ => simp_all [recvOK, receiverCovered]
+  constructor
+  · simp [ownOcc, hg, hrc]
+  · simp [reqOwn, hg, hca, hr]
 
 /-- the specification's template occurrence is counted -/
 theorem reqOwn_spec_tpl (cfg : Config) (exprs qs : List Node) (sp : Span) (o : Occ)
